@@ -29,6 +29,29 @@ def run_harness(tier, seed):
     return json.loads(p.stdout.decode("utf-8"))
 
 
+def run_chunked(argv, env, cwd, data, first, pause=0.03):
+    """Feeds `data` to the command's standard input in two pieces with a pause in between (a slow producer, ssh, a
+    terminal): the reader's first read returns only the first piece."""
+    import subprocess
+    import time
+    p = subprocess.Popen(argv, env=env, cwd=cwd, stdin=subprocess.PIPE, stdout=subprocess.PIPE, stderr=subprocess.PIPE)
+    try:
+        p.stdin.write(data[:first])
+        p.stdin.flush()
+        time.sleep(pause)
+        p.stdin.write(data[first:])
+    except BrokenPipeError:
+        pass
+    try:
+        p.stdin.close()
+    except BrokenPipeError:
+        pass
+    out = p.stdout.read()
+    err = p.stderr.read()
+    p.wait(timeout=60)
+    return p.returncode, out, err
+
+
 def cli_cases(chk, seed, n):
     scratch = common.Scratch("C10")
     try:
@@ -82,6 +105,17 @@ def cli_cases(chk, seed, n):
                     chk.violation("C10:cli:full-report-rejected", "remove --dry-run rejected a complete %s report: %s"
                                   % (fmt, dres.err_text()[-200:]), w)
                     continue
+                if cut == len(res.out):
+                    # the same bytes, delivered in two pieces: same script, same verdict
+                    first = r.choice([1, 2, 5, 12, 19, 20, 64, max(1, len(data) // 2)])
+                    crc, cout, cerr = run_chunked([fse(a) for a in dargv], common.pinned_env(home), troot, data, min(first, len(data)))
+                    chk.count("cli_reports_delivered_in_two_pieces")
+                    if crc != dres.rc or cout != dres.out:
+                        w2 = dict(w, first_piece=first, chunked_rc=crc, chunked_stderr=cerr.decode("utf-8", "replace")[-500:])
+                        chk.violation("C10:cli:%s:verdict-depends-on-how-the-report-arrives" % ("json" if fmt == "json" else "text"),
+                                      "the same %s report is treated differently when its first %d bytes arrive first: exit %s vs %s, %s"
+                                      % (fmt, first, crc, dres.rc, cerr.decode("utf-8", "replace")[-150:]), w2, nontrivial_sig=("cli", i, "chunked"))
+                        continue
                 chk.ok(("cli", i, cut), {"fmt": fmt, "cut": cut, "of": len(res.out), "script_paths": len(named)} if i < 2 else None)
                 chk.count("cli_dry_runs")
                 if cut != len(res.out):
